@@ -123,6 +123,11 @@ def removal(F, R):
         pth = f.exists_path(r_, f.ret_sites(), tagcalls + f.err_exit_sites())
         R.ob('PDOM', 'PDOM::%s::remove_dead_node_id|>remove_service_tag' % fnkey(f), pth is None and bool(tagcalls),
              'after the registry entry was removed every non-error path to a return removes the service tag%s' % ('' if pth is None else ' -- escaping %s' % pth), r_.where, f)
+    rs = f.calls(r'::__internal_remove_service$')
+    for t_ in tagcalls:
+        pth = f.exists_path(t_, rs, [])
+        R.ob('NO-PATH', 'NO-PATH::%s::service-removed-before-its-tag' % fnkey(f), pth is None, 'no __internal_remove_service is reachable after the node\'s service tag was removed (a crash in between would leave service resources nobody is pointed to)%s' % ('' if pth is None else ' -- path %s' % pth), t_.where, f)
+    R.floor('__internal_remove_service calls in remove_node_from_service', len(rs), 2)
     for t in tagcalls:
         R.ob('FLOW', 'FLOW::%s::Ok-only-via-remove_service_tag' % fnkey(f), t.dest == [0], 'remove_service_tag() result is returned directly', t.where, f)
     oks = f.ok_exit_sites()
